@@ -108,10 +108,13 @@ def coq_files():
     return fs
 
 
-def coq_prepare():
+def coq_prepare(extract_only="keep"):
     """Regenerate gen/*.v from /repo and (re)create the Makefile. Returns gen status dict."""
     st = gen.regenerate()
-    write_extract_v()
+    if extract_only != "keep":
+        write_extract_v(extract_only)
+    elif not os.path.exists(os.path.join(COQ, "Extract", "Extract.v")):
+        write_extract_v()
     mk = os.path.join(COQ, "Makefile")
     files = coq_files()
     stamp = os.path.join(COQ, ".files")
@@ -289,11 +292,18 @@ def proof_obligations(check, props_file, extra_targets=()):
         lock.close()
 
 
-def write_extract_v():
+def _stable():
+    p = os.path.join(VERIF, "ocaml", "stable.txt")
+    return set(open(p).read().split()) if os.path.exists(p) else None
+
+
+def write_extract_v(only=None):
     """coq/Extract/Extract.v is assembled from coq/Extract/parts/*.txt (one part per model)."""
     parts = sorted(os.listdir(os.path.join(COQ, "Extract", "parts")))
     reqs, names = [], []
     for f in parts:
+        if only is not None and f[:-4] not in only:
+            continue
         for line in open(os.path.join(COQ, "Extract", "parts", f)):
             line = line.strip()
             if line.startswith("require:"):
@@ -311,34 +321,47 @@ def write_extract_v():
         open(p, "w").write(txt)
 
 
+def _build_model_once(only):
+    write_extract_v(only)
+    coq_prepare(extract_only=only)
+    os.makedirs(os.path.join(COQ, "extracted"), exist_ok=True)
+    ok, log = coq_make(["Extract/Extract.vo"])
+    if not ok:
+        raise CoqError("extraction failed:\n" + log[-3000:])
+    ex = os.path.join(COQ, "extracted")
+    od = os.path.join(VERIF, "ocaml")
+    frags = [os.path.join(od, "prelude.ml")] + [os.path.join(od, "cmds", f) for f in sorted(os.listdir(os.path.join(od, "cmds")))
+                                                  if f.endswith(".ml") and (only is None or f[:-3] in only)] + [os.path.join(od, "main.ml")]
+    drv = "open Model\n" + "\n".join(open(f).read() for f in frags)
+    dp = os.path.join(ex, "driver.ml")
+    if not os.path.exists(dp) or open(dp).read() != drv:
+        open(dp, "w").write(drv)
+    out = os.path.join(ex, "model_runner")
+    srcs = [os.path.join(ex, "model.mli"), os.path.join(ex, "model.ml"), dp]
+    if os.path.exists(out) and all(os.path.getmtime(out) >= os.path.getmtime(s) for s in srcs):
+        return out
+    p = subprocess.run(["ocamlfind", "ocamlopt", "-inline", "50", "-w", "-a", "-o", out,
+                        "model.mli", "model.ml", "driver.ml"], cwd=ex, stdout=subprocess.PIPE,
+                       stderr=subprocess.STDOUT, text=True)
+    if p.returncode != 0:
+        if os.path.exists(out):
+            os.remove(out)
+        raise CoqError("ocaml build failed:\n" + p.stdout[-3000:])
+    return out
+
+
 def build_model():
-    """Extract the Gallina models and build the OCaml model runner; returns its path."""
+    """Extract the Gallina models and build the OCaml model runner; returns its path.
+    If a part that is not listed in ocaml/stable.txt (work in progress) breaks the build, only the stable parts are used."""
     lock = coq_lock()
     try:
-        write_extract_v()
-        coq_prepare()
-        os.makedirs(os.path.join(COQ, "extracted"), exist_ok=True)
-        ok, log = coq_make(["Extract/Extract.vo"])
-        if not ok:
-            raise CoqError("extraction failed:\n" + log[-3000:])
-        ex = os.path.join(COQ, "extracted")
-        od = os.path.join(VERIF, "ocaml")
-        frags = [os.path.join(od, "prelude.ml")] + [os.path.join(od, "cmds", f) for f in sorted(os.listdir(os.path.join(od, "cmds")))
-                                                      if f.endswith(".ml")] + [os.path.join(od, "main.ml")]
-        drv = "open Model\n" + "\n".join(open(f).read() for f in frags)
-        dp = os.path.join(ex, "driver.ml")
-        if not os.path.exists(dp) or open(dp).read() != drv:
-            open(dp, "w").write(drv)
-        out = os.path.join(ex, "model_runner")
-        srcs = [os.path.join(ex, "model.mli"), os.path.join(ex, "model.ml"), dp]
-        if os.path.exists(out) and all(os.path.getmtime(out) >= os.path.getmtime(s) for s in srcs):
-            return out
-        p = subprocess.run(["ocamlfind", "ocamlopt", "-inline", "50", "-w", "-a", "-o", out,
-                            "model.mli", "model.ml", "driver.ml"], cwd=ex, stdout=subprocess.PIPE,
-                           stderr=subprocess.STDOUT, text=True)
-        if p.returncode != 0:
-            raise CoqError("ocaml build failed:\n" + p.stdout[-3000:])
-        return out
+        try:
+            return _build_model_once(None)
+        except CoqError:
+            st = _stable()
+            if st is None:
+                raise
+            return _build_model_once(st)
     finally:
         fcntl.flock(lock, fcntl.LOCK_UN)
         lock.close()
